@@ -27,12 +27,14 @@ func (E *Engine) declStaking() {
 	D.Fun("stk_hasdel", []Sort{SInt, SBytes, SBytes}, SBool)
 	D.Fun("stk_delshares", []Sort{SInt, SBytes, SBytes}, SDec)
 	D.Fun("stk_total_bonded", []Sort{SInt}, SInt)
+	D.Fun("stk_bonded_of", []Sort{SInt, SBytes}, SInt) // sum over BONDED validators of the truncated token value of a delegator's shares
 	D.Const("stk_unbonding_time", SInt)
 	D.Const("bondDenom", SStr)
 	D.Axiom("(> stk_unbonding_time 0)")
 	D.Axiom("(forall ((s Int) (v Bytes)) (! (and (>= (stk_tokens s v) 0) (>= (stk_dshares s v) 0)) :pattern ((stk_tokens s v))))")
 	D.Axiom("(forall ((s Int) (a Bytes) (v Bytes)) (! (>= (stk_delshares s a v) 0) :pattern ((stk_delshares s a v))))")
 	D.Axiom("(forall ((s Int)) (! (>= (stk_total_bonded s) 0) :pattern ((stk_total_bonded s))))")
+	D.Axiom("(forall ((s Int) (a Bytes)) (! (and (>= (stk_bonded_of s a) 0) (<= (stk_bonded_of s a) (stk_total_bonded s))) :pattern ((stk_bonded_of s a))))")
 }
 
 func setField(sv *StructV, name string, v Val) {
@@ -84,6 +86,96 @@ func init() {
 	invokeModels[ifStake+".TotalBondedTokens"] = func(m *Machine, _ *Frame, _ *ssa.CallCommon, a []Val) Val {
 		m.E.declStaking()
 		return &TupleV{Vs: []Val{App(SInt, "stk_total_bonded", m.stk()), IntLit(0)}}
+	}
+	// ---- mutators (used by the rebalance only) ----
+	// stkStep makes a new staking version in which only validator `val` and the delegation (del,val) may differ.
+	stkStep := func(m *Machine, del, val *Term) (*Term, *Term) {
+		E := m.E
+		E.declStaking()
+		E.declKeys()
+		E.Assume("A-STAKING-MUT", "x/staking Delegate/Unbond(del,val): change only validator val's tokens/shares and the delegation (del,val); existence, status and jailing of every validator are kept; the module's staking hooks run and queue a rebalance (AfterDelegationModified / BeforeDelegationRemoved set the alliance flag); error conditions are not modelled (any error may be returned)")
+		s0 := m.stk()
+		s1 := E.D.Fresh("stk", SInt)
+		ax := fmt.Sprintf("(forall ((v Bytes)) (! (and (= (stk_exists %[1]s v) (stk_exists %[2]s v)) (= (stk_status %[1]s v) (stk_status %[2]s v)) (= (stk_jailed %[1]s v) (stk_jailed %[2]s v)) (=> (not (= v %[3]s)) (and (= (stk_tokens %[1]s v) (stk_tokens %[2]s v)) (= (stk_dshares %[1]s v) (stk_dshares %[2]s v))))) :pattern ((stk_exists %[1]s v)) :pattern ((stk_status %[1]s v)) :pattern ((stk_tokens %[1]s v)) :pattern ((stk_dshares %[1]s v)) :pattern ((stk_jailed %[1]s v))))", s1.S, s0.S, val.S)
+		m.AssumeT(T(SBool, ax))
+		ax2 := fmt.Sprintf("(forall ((a Bytes) (v Bytes)) (! (=> (not (and (= a %[3]s) (= v %[4]s))) (and (= (stk_hasdel %[1]s a v) (stk_hasdel %[2]s a v)) (= (stk_delshares %[1]s a v) (stk_delshares %[2]s a v)))) :pattern ((stk_hasdel %[1]s a v)) :pattern ((stk_delshares %[1]s a v))))", s1.S, s0.S, del.S, val.S)
+		m.AssumeT(T(SBool, ax2))
+		ax3 := fmt.Sprintf("(forall ((a Bytes)) (! (=> (not (= a %[3]s)) (= (stk_bonded_of %[1]s a) (stk_bonded_of %[2]s a))) :pattern ((stk_bonded_of %[1]s a))))", s1.S, s0.S, del.S)
+		m.AssumeT(T(SBool, ax3))
+		return s0, s1
+	}
+	hookFlag := func(m *Machine) {
+		// the module's own staking hooks queue a rebalance
+		m.SetG("S", Store(m.S(), T(SBytes, "g_AssetRebalanceQueueKey"), T(SBytes, "flagbytes")))
+	}
+	invokeModels[ifStake+".Delegate"] = func(m *Machine, _ *Frame, cc *ssa.CallCommon, a []Val) Val {
+		E := m.E
+		del, amt := term(a[2]), term(a[3])
+		valS := a[5].(*StructV)
+		models[pkgSdk+".AccAddressFromBech32"](m, nil, nil, []Val{E.D.StrLit("")})
+		val := App(SBytes, "val_of", term(stakingField(valS, "OperatorAddress")))
+		s0, s1 := stkStep(m, del, val)
+		E.D.Declare("flagbytes", "(declare-fun flagbytes () Bytes)")
+		E.D.Axiom("(not (= flagbytes bnil))")
+		sub := term(a[6])
+		bond := T(SStr, "bondDenom")
+		bank := m.Bank()
+		funded := Ge(m.bankSelect(del, bond), amt)
+		pool := Ite(Eq(App(SInt, "stk_status", s0, val), IntLit(3)), E.moduleAddr(E.D.StrLit("bonded_tokens_pool")), E.moduleAddr(E.D.StrLit("not_bonded_tokens_pool")))
+		fromBal := Store(Select(bank, del), bond, Sub(m.bankSelect(del, bond), amt))
+		b1 := Store(bank, del, fromBal)
+		toBal := Store(Select(b1, pool), bond, Add(Select(Select(b1, pool), bond), amt))
+		b2 := Store(b1, pool, toBal)
+		okv := E.D.Fresh("delegate_ok", SBool)
+		ok := And(okv, Or(Not(sub), funded), Gt(amt, IntLit(0)))
+		// success: tokens move, shares are issued
+		m.AssumeT(Implies(ok, And(
+			Eq(App(SInt, "stk_tokens", s1, val), Add(App(SInt, "stk_tokens", s0, val), amt)),
+			App(SBool, "stk_hasdel", s1, del, val),
+			Ge(App(SDec, "stk_delshares", s1, del, val), App(SDec, "stk_delshares", s0, del, val)),
+			Eq(App(SInt, "stk_total_bonded", s1), Add(App(SInt, "stk_total_bonded", s0), Ite(Eq(App(SInt, "stk_status", s0, val), IntLit(3)), amt, IntLit(0)))))))
+		m.SetG("stk", Ite(ok, s1, s0))
+		m.SetG("bank", Ite(And(ok, sub), b2, bank))
+		led := m.GetG("sdelegated", ghostSorts["sdelegated"])
+		m.SetG("sdelegated", Ite(ok, Store(led, del, Add(Select(led, del), amt)), led))
+		if true {
+			sBefore := m.S()
+			hookFlag(m)
+			m.SetG("S", Ite(ok, m.S(), sBefore))
+		}
+		shares := E.D.Fresh("newshares", SDec)
+		return &TupleV{Vs: []Val{shares, Ite(ok, IntLit(0), IntLit(994))}}
+	}
+	invokeModels[ifStake+".ValidateUnbondAmount"] = func(m *Machine, _ *Frame, cc *ssa.CallCommon, a []Val) Val {
+		E := m.E
+		E.declStaking()
+		E.Assume("A-STAKING-MUT", "x/staking Delegate/Unbond(del,val): change only validator val's tokens/shares and the delegation (del,val); existence, status and jailing of every validator are kept; the module's staking hooks run and queue a rebalance (AfterDelegationModified / BeforeDelegationRemoved set the alliance flag); error conditions are not modelled (any error may be returned)")
+		shares := E.D.Fresh("unbshares", SDec)
+		m.AssumeT(Ge(shares, DecInt(0)))
+		err := E.D.Fresh("err_validateunbond", SInt)
+		m.AssumeT(Ge(err, IntLit(0)))
+		return &TupleV{Vs: []Val{shares, err}}
+	}
+	invokeModels[ifStake+".Unbond"] = func(m *Machine, _ *Frame, cc *ssa.CallCommon, a []Val) Val {
+		E := m.E
+		del, val := term(a[2]), term(a[3])
+		s0, s1 := stkStep(m, del, val)
+		E.D.Declare("flagbytes", "(declare-fun flagbytes () Bytes)")
+		E.D.Axiom("(not (= flagbytes bnil))")
+		amount := E.D.Fresh("unbonded", SInt)
+		m.AssumeT(Ge(amount, IntLit(0)))
+		ok := E.D.Fresh("unbond_ok", SBool)
+		m.AssumeT(Implies(ok, And(
+			Eq(App(SInt, "stk_tokens", s1, val), Sub(App(SInt, "stk_tokens", s0, val), amount)),
+			Le(App(SDec, "stk_delshares", s1, del, val), App(SDec, "stk_delshares", s0, del, val)),
+			Eq(App(SInt, "stk_total_bonded", s1), Sub(App(SInt, "stk_total_bonded", s0), Ite(Eq(App(SInt, "stk_status", s0, val), IntLit(3)), amount, IntLit(0)))))))
+		m.SetG("stk", Ite(ok, s1, s0))
+		led := m.GetG("sunbonded", ghostSorts["sunbonded"])
+		m.SetG("sunbonded", Ite(ok, Store(led, del, Add(Select(led, del), amount)), led))
+		sBefore := m.S()
+		hookFlag(m)
+		m.SetG("S", Ite(ok, m.S(), sBefore))
+		return &TupleV{Vs: []Val{amount, Ite(ok, IntLit(0), IntLit(993))}}
 	}
 	// distribution
 	invokeModels[ifDistr+".WithdrawDelegationRewards"] = func(m *Machine, _ *Frame, _ *ssa.CallCommon, a []Val) Val {
